@@ -248,11 +248,33 @@ func (ex *Exec) verifyFunc(fn *ssa.Function, c *Contract) {
 		st.assume(t)
 	}
 	ex.cover(st, "pre")
+	var fdecl *frameDecl
+	// the modifies clause is CHECKED (frame obligations) for the functions that
+	// carry a C20-tagged clause; elsewhere it is a declared, unchecked assumption
+	if c.HasMod && c.Props["C20"] {
+		fd, err := ex.parseFrame(st, c, env)
+		if err != nil {
+			ex.errors = append(ex.errors, fmt.Sprintf("modifies clause: %v", err))
+		} else {
+			fdecl = fd
+		}
+	}
+	ex.topFrame = fdecl
 	sig := fn.Signature
 	ex.runFunc(st, fn, c, args, topBinds, 0, func(st2 *State, rets []Val) {
 		ex.exitPaths++
 		ex.cover(st2, "exit")
 		post := &Env{ex: ex, st: st2, old: ex.entry, vars: map[string]Val{}, fr: fr0, pkg: env.pkg, postLocals: true}
+		// captured variables of a closure: their value at the return
+		for i, fv := range fn.FreeVars {
+			if i < len(topBinds) && topBinds[i].Kind == VCellPtr {
+				post.vars[fv.Name()] = st2.cells[topBinds[i].Cell]
+				if post.oldVars == nil {
+					post.oldVars = map[string]Val{}
+				}
+				post.oldVars[fv.Name()] = ex.topParams[fv.Name()]
+			}
+		}
 		for i, r := range rets {
 			if i < len(c.Results) {
 				post.vars[c.Results[i]] = r
@@ -281,6 +303,7 @@ func (ex *Exec) verifyFunc(fn *ssa.Function, c *Contract) {
 				st2.script[len(st2.script)-1].Check.NoAssume = true
 			}
 		}
+		ex.frameChecks(st2, fr0, fdecl, c.File)
 		ex.endPath(st2, "ret")
 	})
 }
